@@ -153,6 +153,9 @@ class Signer(SuitEnvelopeSignerBase):
         self._context = context
         self._skip_signing = False
         self.envelope = input_envelope
+        if not isinstance(self.envelope.value, dict):
+            # cbor2 >= 6 decodes tagged content into immutable containers
+            self.envelope = cbor2.CBORTag(input_envelope.tag, dict(input_envelope.value))
 
         self.init_kms_backend(kms_script)
         self.already_signed_action(already_signed_action)
